@@ -45,7 +45,7 @@ STORED_EQ = [
 ]
 STORED_IN = ["[0]", "[0, 1]", "[0, 'a', None]", "['a', 'b']", "[[0], (1,)]", "[]", "[DC(x=1), 0]", "[Is(1), 2]", "[1.5, 'x']"]
 STORED_GET = ["{'a': 0}", "{'a': 0, 'b': [1]}", "{'a': {'b': 0}, 'c': 1}", "{0: 'x', (1, 2): 'y'}", "{'a': [0, 1]}", "{'a': DC(x=1)}",
-              "{'a': Is(1), 'b': 2}"]
+              "{'a': Is(1), 'b': 2}", "{KEYNAME: 'x', 'age': 3}", "{'age': 3, KEYNAME: 'x'}", "{Color.RED: 1, 'b': 2}", "{(KEYNAME, 1): 0, 'z': [1]}"]
 
 
 def bounds(tier):
